@@ -279,10 +279,11 @@ class Stats(StageRun):
     mid = ('cell_type_mapper.diff_exp.precompute_from_anndata',
            '_process_chunk', 'after')
     rows_at_a_time = 4
+    copy_data_over = False
 
     def prepare(self):
         self.ref_h5ad()
-        self.out = self.d / 'stats_out.h5'
+        self.out = self.d / ('stats_out_%s.h5' % self.name.replace('.', '_'))
 
     def run(self, n_processors):
         from cell_type_mapper.diff_exp.precompute_from_anndata import (
@@ -292,14 +293,35 @@ class Stats(StageRun):
             taxonomy_tree=self.prob.taxonomy_tree(),
             output_path=self.out, rows_at_a_time=self.rows_at_a_time,
             normalization='raw', tmp_dir=self.tmp,
-            n_processors=n_processors)
+            n_processors=n_processors, copy_data_over=self.copy_data_over)
 
     def outputs(self):
         return [self.out]
 
     def accepts(self):
+        """would the next stage take what is at the output location?  The
+        real `find_markers_for_all_taxonomy_pairs` is run on it (it gets the
+        taxonomy as an argument, so it does not need the `taxonomy_tree`
+        dataset); and the readers that take the tree from the file"""
         if not self.out.is_file():
             return False
+        from cell_type_mapper.diff_exp.markers import (
+            find_markers_for_all_taxonomy_pairs)
+        probe = self.d / 'probe_markers.h5'
+        try:
+            with pipeline.quiet():
+                find_markers_for_all_taxonomy_pairs(
+                    precomputed_stats_path=self.out,
+                    taxonomy_tree=self.prob.taxonomy_tree(),
+                    output_path=probe, n_processors=1, tmp_dir=self.tmp,
+                    max_gb=1, n_valid=5)
+            return True
+        except BaseException as e:   # noqa
+            if isinstance(e, KeyboardInterrupt):
+                raise
+        finally:
+            if probe.exists():
+                probe.unlink()
         # the readers of a statistics file: the tree, then the numbers
         from cell_type_mapper.taxonomy.taxonomy_tree import TaxonomyTree
         try:
@@ -315,6 +337,13 @@ class Stats(StageRun):
 
     def canonical(self):
         return h5_digest(self.out)
+
+
+class StatsCopy(Stats):
+    """reference statistics with `copy_data_over=True` (the data file is first
+    copied into the scratch directory)"""
+    name = 'stats.copy'
+    copy_data_over = True
 
 
 class RefMarkers(StageRun):
@@ -564,6 +593,10 @@ class Mapping(StageRun):
            'run_type_assignment', 'after')
     chunk_size = 4
     rng_seed = 1137
+    #: which outputs the run is asked for (the log always)
+    want_json = True
+    want_h5 = True
+    want_csv = True
 
     def prepare(self):
         prob = self.prob
@@ -594,16 +627,21 @@ class Mapping(StageRun):
                 lookup['subclass/%s' % mrng.choice(sorted(sub))] = missing
         self.markers = self.d / 'query_markers.json'
         self.markers.write_text(json.dumps(lookup))
-        self.out_dir = self.d / 'mapping_out'
+        self.out_dir = self.d / ('mapping_out_%s' % self.name.replace('.', '_'))
         self.out_dir.mkdir(exist_ok=True)
 
     def config(self, n_processors):
-        return pipeline.mapping_config(
+        cfg = pipeline.mapping_config(
             self.query, self.stats_file(), self.markers, self.out_dir,
             self.tmp, n_processors=n_processors,
             chunk_size=self.chunk_size, bootstrap_factor=0.7,
             bootstrap_iteration=10, rng_seed=self.rng_seed, n_runners_up=2,
-            normalization='raw')
+            normalization='raw', csv=self.want_csv)
+        if not self.want_json:
+            cfg['extended_result_path'] = None
+        if not self.want_h5:
+            cfg['hdf5_result_path'] = None
+        return cfg
 
     def run(self, n_processors):
         from cell_type_mapper.cli.from_specified_markers import run_mapping
@@ -650,7 +688,9 @@ class Mapping(StageRun):
     def accepts(self):
         o = self.observe()
         return bool(o['json_keys'] and 'results' in o['json_keys']) \
-            or o['csv_exists']
+            or o['csv_exists'] \
+            or bool(o['h5_datasets'] and o['h5_datasets'] != ['metadata']) \
+            or bool(o['log_text'] and 'RAN SUCCESSFULLY' in o['log_text'])
 
     def canonical(self):
         """JSON minus timestamps/durations/log/config paths, CSV body, HDF5
@@ -669,6 +709,32 @@ class Mapping(StageRun):
         for p in self.outputs():
             if p.exists():
                 p.unlink()
+
+
+class MappingCsvOnly(Mapping):
+    """no extended (JSON) and no HDF5 output requested: CSV and log only"""
+    name = 'mapping.csvOnly'
+    want_json = False
+    want_h5 = False
+
+
+class MappingLogOnly(Mapping):
+    name = 'mapping.logOnly'
+    want_json = False
+    want_h5 = False
+    want_csv = False
+
+
+class MappingJsonOnly(Mapping):
+    name = 'mapping.jsonOnly'
+    want_h5 = False
+    want_csv = False
+
+
+class MappingH5Only(Mapping):
+    name = 'mapping.h5Only'
+    want_json = False
+    want_csv = False
 
 
 class MappingWide(Mapping):
@@ -712,7 +778,9 @@ class StatsFromColumns(Stats):
 #: fixtures that only the hash-seed runs use (on a wide problem)
 HASHSEED_EXTRA = {c.name: c for c in (MappingWide, StatsFromColumns)}
 
-STAGES = {c.name: c for c in (Mapping, Stats, RefMarkers, RefMarkersTranspose,
+STAGES = {c.name: c for c in (Mapping, MappingCsvOnly, MappingLogOnly,
+                              MappingJsonOnly, MappingH5Only, Stats,
+                              StatsCopy, RefMarkers, RefMarkersTranspose,
                               PMask, PMarkers, PMarkersTranspose, Selection,
                               SelectionBehemoth, Transpose)}
 
